@@ -359,7 +359,7 @@ impl Runner {
             _ => ("", 0),
         };
         let mut cmd = Command::new("timeout");
-        cmd.arg("-s").arg("KILL").arg("120").arg(&self.bin).args(&args);
+        cmd.arg("-k").arg("5").arg("120").arg(&self.bin).args(&args);
         cmd.current_dir(root)
             .env_clear()
             .env("PATH", &self.path_env)
